@@ -28,6 +28,15 @@ Definition P_block (t h : Z) (s s' : state) (l : list hook) : Prop :=
   Forall2 (P_info t h l) s s' /\
   (forall x, In x l -> exists e, In e s /\ e_id e = hook_id x).
 
+Fixpoint lookup (i : nat) (s : state) : option einfo :=
+  match s with [] => None | e :: r => if Nat.eqb (e_id e) i then Some e else lookup i r end.
+
+(** what an op that is not a block (AddEpochInfo, InitGenesis at any point of the chain) may do to the clocks:
+    every stored info is still stored, unchanged — a running epoch keeps its number, start time and height —
+    and no hook is called *)
+Definition P_keep (s s' : state) (l : list hook) : Prop :=
+  (forall i e, lookup i s = Some e -> lookup i s' = Some e) /\ l = [].
+
 (** a trace: the state before, then (op, published output) pairs; the state before each op is
     what the previous op published *)
 Fixpoint P_trace (s : state) (tr : list (op * out)) : Prop :=
@@ -37,7 +46,7 @@ Fixpoint P_trace (s : state) (tr : list (op * out)) : Prop :=
       (* a committed block satisfies the per-block property; a block aborted by a panicking hook commits nothing *)
       (if o_ok o then P_block t h s (o_infos o) (o_hooks o) else o_infos o = s /\ o_hooks o = []) /\
       P_trace (o_infos o) r
-  | (Add _ _ _, o) :: r => P_trace (o_infos o) r
+  | (_, o) :: r => P_keep s (o_infos o) (o_hooks o) /\ P_trace (o_infos o) r
   end.
 
 (* ---------------------------------------------------------------- histories the property is claimed for *)
@@ -53,15 +62,15 @@ Definition ids (s : state) : list nat := map e_id s.
 
 Definition Inv (now : Z) (s : state) : Prop := Forall (wf_info now) s /\ NoDup (ids s).
 
-Definition op_time (o : op) : Z := match o with Block t _ => t | Add ct _ _ => ct end.
+Definition op_time (o : op) : Z := match o with Block t _ => t | Add ct _ _ => ct | Init _ ct _ _ => ct end.
 
-(** the info AddEpochInfo stores *)
-Definition added (ct ch : Z) (a : add_args) : einfo :=
-  {| e_id := a_id a; e_start := match a_start a with Some x => x | None => ct end; e_dur := a_dur a;
-     e_cur := a_cur a; e_cur_start := a_cur_start a; e_height := ch; e_started := a_started a |}.
-
+(** the definitions an op brings ([added]: the info AddEpochInfo stores, Model.v) *)
 Definition add_wf (o : op) : Prop :=
-  match o with Block _ _ => True | Add ct ch a => wf_info ct (added ct ch a) end.
+  match o with
+  | Block _ _ => True
+  | Add ct ch a => wf_info ct (added ct ch a)
+  | Init _ ct ch gs => Forall (fun a => wf_info ct (added ct ch a)) gs
+  end.
 
 (** non-decreasing context times, well-formed definitions *)
 Fixpoint ops_ok (now : Z) (ops : list op) : Prop :=
@@ -69,9 +78,6 @@ Fixpoint ops_ok (now : Z) (ops : list op) : Prop :=
   | [] => True
   | o :: r => now <= op_time o /\ add_wf o /\ ops_ok (op_time o) r
   end.
-
-Fixpoint lookup (i : nat) (s : state) : option einfo :=
-  match s with [] => None | e :: r => if Nat.eqb (e_id e) i then Some e else lookup i r end.
 
 (** the hook calls for identifier [i] that take its epoch number from [a] to [b] *)
 Definition span_n (i : nat) (a : Z) (k : nat) : list hook :=
@@ -127,6 +133,10 @@ Fixpoint forall2b {A} (f : A -> A -> bool) (a b : list A) : bool :=
 Definition Pb_block (t h : Z) (s s' : state) (l : list hook) : bool :=
   forall2b (Pb_info t h l) s s' && forallb (fun x => has_id (hook_id x) s) l.
 
+Definition Pb_keep (s s' : state) (l : list hook) : bool :=
+  forallb (fun e => match lookup (e_id e) s' with Some e' => einfo_eqb e' e | None => false end) s &&
+  match l with [] => true | _ => false end.
+
 Fixpoint Pb_trace (s : state) (tr : list (op * out)) : bool :=
   match tr with
   | [] => true
@@ -134,7 +144,7 @@ Fixpoint Pb_trace (s : state) (tr : list (op * out)) : bool :=
       (if o_ok o then Pb_block t h s (o_infos o) (o_hooks o)
        else list_eqb einfo_eqb (o_infos o) s && match o_hooks o with [] => true | _ => false end) &&
       Pb_trace (o_infos o) r
-  | (Add _ _ _, o) :: r => Pb_trace (o_infos o) r
+  | (_, o) :: r => Pb_keep s (o_infos o) (o_hooks o) && Pb_trace (o_infos o) r
   end.
 
 (* ---------------------------------------------------------------- soundness *)
@@ -222,14 +232,32 @@ Proof.
   - intros x Hx. rewrite forallb_forall in H2. apply has_id_In. apply H2. exact Hx.
 Qed.
 
+Lemma lookup_In i s e : lookup i s = Some e -> In e s /\ e_id e = i.
+Proof.
+  induction s as [|x s IH]; simpl; [discriminate|].
+  destruct (Nat.eqb (e_id x) i) eqn:E.
+  - intro H. inversion H; subst. apply Nat.eqb_eq in E. auto.
+  - intro H. destruct (IH H). auto.
+Qed.
+
+Lemma Pb_keep_sound s s' l : Pb_keep s s' l = true -> P_keep s s' l.
+Proof.
+  unfold Pb_keep, P_keep. intro H. apply andb_true_iff in H. destruct H as [A B]. split.
+  - intros i e Hl. destruct (lookup_In _ _ _ Hl) as [Hin Hi]. rewrite forallb_forall in A.
+    specialize (A e Hin). rewrite Hi in A. destruct (lookup i s') as [e'|]; [|discriminate].
+    apply einfo_eqb_eq in A. subst. reflexivity.
+  - destruct l; [reflexivity|discriminate].
+Qed.
+
 Lemma Pb_trace_sound tr : forall s, Pb_trace s tr = true -> P_trace s tr.
 Proof.
   induction tr as [|[o x] r IH]; intros s H; simpl in *; [exact I|].
-  destruct o as [t h|ct ch a].
+  destruct o as [t h|ct ch a|via ct ch gs].
   - apply andb_true_iff in H. destruct H as [H1 H2]. split; [|apply IH; exact H2].
     destruct (o_ok x); [apply Pb_block_sound; exact H1|].
     apply andb_true_iff in H1. destruct H1 as [A B]. split.
     + apply (list_eqb_eq einfo_eqb einfo_eqb_eq). exact A.
     + destruct (o_hooks x); [reflexivity|discriminate].
-  - apply IH. exact H.
+  - apply andb_true_iff in H. destruct H as [H1 H2]. split; [apply Pb_keep_sound; exact H1|apply IH; exact H2].
+  - apply andb_true_iff in H. destruct H as [H1 H2]. split; [apply Pb_keep_sound; exact H1|apply IH; exact H2].
 Qed.
